@@ -30,7 +30,7 @@ Qed.
 
 Lemma take_eq n bs a t : take n bs = Some (a, t) -> a = firstn n bs /\ t = skipn n bs /\ (n <= length bs)%nat.
 Proof.
-  unfold take. destruct (Nat.leb_spec n (length bs)) as [H|H]; [|discriminate].
+  rewrite take_unfold. destruct (Nat.leb_spec n (length bs)) as [H|H]; [|discriminate].
   intros E. inversion E; subst. auto.
 Qed.
 
